@@ -304,7 +304,9 @@ func c11Orchestrator(r *kit.Run, idx int64, rng *rand.Rand) {
 		wd := make(chan struct{})
 		go func() { waitErr = or.Wait(); waitStamp = kit.Stamp(); close(wd) }()
 		if !kit.WaitUntil(c11Watchdog/2, func() bool { return isClosed(wd) }) {
-			if cs, q := kit.Quiesce(c11Watchdog); q {
+			if cs, q := kit.Quiesce(c11Watchdog); isClosed(wd) {
+				// returned late (slow machine): not a verdict
+			} else if q {
 				note("wait-never-returns", fmt.Sprintf("Orchestrator.Wait does not return after Close; %v", cs.Describe()))
 			} else {
 				inconclusive = "orchestrator Wait not returned, not quiescent"
@@ -435,7 +437,9 @@ func c11Group(r *kit.Run, idx int64, rng *rand.Rand) {
 		wd := make(chan struct{})
 		go func() { waitErr = g.Wait(); waitStamp = kit.Stamp(); close(wd) }()
 		if !kit.WaitUntil(c11Watchdog/2, func() bool { return isClosed(wd) }) {
-			if cs, q := kit.Quiesce(c11Watchdog); q {
+			if cs, q := kit.Quiesce(c11Watchdog); isClosed(wd) {
+				// returned late (slow machine): not a verdict
+			} else if q {
 				if problem == "" {
 					kind, problem = "wait-never-returns", fmt.Sprintf("Group.Wait does not return after %s; %v", endMode, cs.Describe())
 				}
@@ -578,7 +582,9 @@ func c11Pool(r *kit.Run, idx int64, rng *rand.Rand) {
 		wd := make(chan struct{})
 		go func() { waitErr = pool.Wait(); close(wd) }()
 		if !kit.WaitUntil(c11Watchdog/2, func() bool { return isClosed(wd) }) {
-			if cs, q := kit.Quiesce(c11Watchdog); q {
+			if cs, q := kit.Quiesce(c11Watchdog); isClosed(wd) {
+				// returned late (slow machine): not a verdict
+			} else if q {
 				if problem == "" {
 					kind, problem = "wait-never-returns", fmt.Sprintf("pool Wait does not return after Close; %v", cs.Describe())
 				}
@@ -729,7 +735,9 @@ func c11Cleanup(r *kit.Run, idx int64, rng *rand.Rand) {
 		}
 		defer lw.Wait()
 		if !kit.WaitUntil(c11Watchdog/2, func() bool { return isClosed(wd) }) {
-			if cs, q := kit.Quiesce(c11Watchdog); q {
+			if cs, q := kit.Quiesce(c11Watchdog); isClosed(wd) {
+				// returned late (slow machine): not a verdict
+			} else if q {
 				kind, problem = "wait-never-returns", fmt.Sprintf("Cleanup service Wait does not return after %s; %v", endMode, cs.Describe())
 			} else {
 				inconclusive = "cleanup Wait not returned, not quiescent"
